@@ -41,7 +41,8 @@ TARGETS = [
                    'translateDec': _fb('translateDec', _T4, 'translateDecHand')},
          all_params=_T4),
     dict(file=_F, func='dec2dec', mode='real', params={'d0': 'A', 'd1': 'A', 'd2': 'A'},
-         subst={'float(d[0])': 'd0', 'float(d[1])': 'd1', 'float(d[2])': 'd2'},
+         subst={'float(d[0])': 'd0', 'float(d[1])': 'd1', 'float(d[2])': 'd2',
+                'd[0]': 'd0', 'd[1]': 'd1', 'd[2]': 'd2'},   # also when the fields are converted once, up front
          returns='dec2decNeg', fallback={'dec2decNeg': _fb('dec2decNeg', ['d0', 'd1', 'd2'], 'dec2decNegHand')},
          all_params=['d0', 'd1', 'd2']),
     dict(file=_F, func='ra2dec', mode='real', params={'v': 'A'}, subst={'dec2dec(ra)': 'v'},
